@@ -331,3 +331,46 @@ def s4(I):
     I.check('contract_debited_exactly', smt.Eq(b.get(FM, 'uusd'), pre.get(FM, 'uusd') - (funded - claimed)))
     if who != 'fowner':
         I.check('closer_gets_nothing', smt.Eq(b.get(who, 'uusd'), pre.get(who, 'uusd')))
+
+
+# ---------------------------------------------------------------- the concurrent-farm limit beyond one page of the farm listing
+
+_BIG = 101          # configured max_concurrent_farms, above MAX_FARMS_LIMIT (100), the largest page of the internal farm listing
+
+
+def _replay_s5(m):
+    ep = m['epoch']
+    farms = [('m-%03d' % k, 'owner1', LP1, 'uusd', 10, 0, 1, ep - 1, ep + 5) for k in range(_BIG)]
+    return {'now_s': m['now_s'], 'farms': farms, 'counters': {'farm': 3},
+            'mints': [('farm_manager', [('uusd', 10 * _BIG)]), ('creator', [('uusd', m['reward']), ('uom', 1000)])],
+            'config': {'create_farm_fee': {'denom': 'uom', 'amount': '1000'}, 'max_concurrent_farms': _BIG},
+            'txs': [('creator', _farm_msg('create', params=_params_json('uusd', m['reward'], ep + 1, ep + 11)), [('uom', 1000), ('uusd', m['reward'])])]}
+
+
+@obligation('C11', 'S5.limit_above_one_listing_page', entries=['execute', 'create_farm', 'get_farms_by_lp_denom', 'is_farm_expired'], kind='S',
+            statement='with max_concurrent_farms = %d (above the page size of the internal farm listing) and %d live farms on the LP token, one more creation is refused: '
+                      'the LP token never has more than the configured number of unexpired farms' % (_BIG, _BIG),
+            bounds='%d live farms with fixed budgets, symbolic reward / time; max_concurrent_farms = %d' % (_BIG, _BIG), covers=['refused'],
+            replay=fm_replay(lambda m: _replay_s5(m)))
+def s5(I):
+    I.set_hint(dict(HINT, epoch=100, now_s=100 * DAY + 5))
+    now, ep, b = _world(I)
+    fm_config(I, fee=coin_v('uom', 1000), max_concurrent=_BIG)
+    for k in range(_BIG):
+        put_farm(I, farm('m-%03d' % k, 'owner1', LP1, 'uusd', 10, 0, 1, simp(ep - 1), simp(ep + 5)))
+    b.set(FM, 'uusd', 10 * _BIG)
+    reward = I.sym('reward', lo=1000, hi=U128 // 2)
+    b.set('creator', 'uusd', reward)
+    b.set('creator', 'uom', 1000)
+    ch = Chain(I, CONTRACTS_FM)
+    st, resp = ch.execute('creator', FM, manage_farm('Create', params=farm_params(LP1, coin_v('uusd', reward), simp(ep + 1), simp(ep + 11))),
+                          [coin_v('uom', 1000), coin_v('uusd', reward)])
+    I.observe('status', 'ok' if st == 'ok' else 'err')
+    observe_farm(I, 'f-4')
+    observe_balances(I, b, [(FM, 'uusd'), ('creator', 'uusd')])
+    ms = I.world.store(FM).get('farms')
+    if st == 'ok':
+        I.check('creation_refused_at_the_configured_limit', False)
+        I.check('at_most_max_concurrent_unexpired', len(ms.entries) <= _BIG)
+        return
+    I.cover('refused')
